@@ -2,6 +2,7 @@
 VERUS = {
     'int_shift': {'file': 'int_shift.rs', 'w32': True},
     'int_bits': {'file': 'int_bits.rs', 'w32': True},
+    'int_div_word': {'file': 'int_div_word.rs', 'w32': True},
 }
 
 KANI = {
@@ -20,11 +21,20 @@ KANI = {
             'vk_bits_dword_low_bits': {'kind': 'complete', 'domain': 'all u128 x all usize n'},
             'vk_bits_slice_low_bits_len1': {'kind': 'bounded', 'bound': 'len <= 3'},
             'vk_bits_slice_low_bits_len2': {'kind': 'bounded', 'bound': 'len <= 3'},
-            'vk_bits_slice_low_bits_len3': {'kind': 'bounded', 'bound': 'len <= 3'},
+            'vk_bits_slice_low_bits_len3': {'kind': 'bounded', 'bound': 'len <= 3', 'tier': 'thorough'},
+        },
+    },
+    'int_div_dword': {
+        'package': 'dashu-int', 'target': 'integer/src/div/mod.rs', 'file': 'int_div_dword.rs',
+        'harnesses': {
+            'vk_dd_fast_div_len%d_d%d' % (n, k): {'kind': 'bounded',
+                                                 'bound': 'len <= 5, 3 concrete divisors, 4 symbolic bits per word'}
+            for n in (2, 3, 4, 5) for k in (0, 1, 2)
         },
     },
 }
 
 PROP_UNITS = {
     'C09': {'verus': ['int_shift', 'int_bits'], 'kani': ['int_shift', 'int_bits']},
+    'C02': {'verus': ['int_shift', 'int_div_word'], 'kani': ['int_shift']},
 }
